@@ -106,6 +106,9 @@ def step (s : Sess) (c : Cmd) : Sess × String × String :=
     | "it_new" =>
       let s' : Sess := { s with iter := some t.iterInit, cursor := some (Cursor.init f), mem := m }
       (s', lineS "st=-" s', lineM "st=-" s' 0)
+    | "it_drop" =>
+      let s' : Sess := { s with iter := none, cursor := none, mem := m }
+      (s', lineS "st=-" s', lineM "st=-" s' 0)
     | "it_next" =>
       match s.iter, s.cursor with
       | some it, some cu =>
